@@ -26,7 +26,7 @@ use serde_json::{Value, json};
 
 use crate::{
     rng::Rng,
-    util::{Outcome, catch, guarded},
+    util::catch,
 };
 
 pub const ROFF: usize = 100_000;
@@ -47,22 +47,113 @@ pub fn main(args: &[String]) -> i32 {
         return 2;
     }
     let jobs: Value = serde_json::from_str(&fs::read_to_string(&args[0]).unwrap()).unwrap();
-    let mut out = BufWriter::new(fs::File::create(&args[1]).unwrap());
     let seed = jobs["seed"].as_u64().unwrap_or(0);
-    for (n, inst) in jobs["instances"].as_array().unwrap().iter().enumerate() {
-        let inst = inst.clone();
-        let width = inst["width"].as_u64().unwrap_or(32);
-        let iseed = seed.wrapping_mul(1_000_003).wrapping_add(n as u64);
-        let lines = match width {
-            8 => instance::<u8>(&inst, iseed),
-            16 => instance::<u16>(&inst, iseed),
-            _ => instance::<u32>(&inst, iseed),
-        };
-        for l in lines {
+    let insts: Vec<Value> = jobs["instances"].as_array().unwrap().clone();
+    let n = insts.len();
+    let results: Vec<std::sync::Mutex<Vec<String>>> =
+        (0..n).map(|_| std::sync::Mutex::new(Vec::new())).collect();
+    let next = std::sync::atomic::AtomicUsize::new(0);
+    let workers = jobs["workers"].as_u64().unwrap_or(8) as usize;
+    std::thread::scope(|sc| {
+        for _ in 0..workers.max(1) {
+            sc.spawn(|| {
+                loop {
+                    let i = next.fetch_add(1, std::sync::atomic::Ordering::SeqCst);
+                    if i >= n {
+                        break;
+                    }
+                    let mut inst = insts[i].clone();
+                    if inst["iseed"].is_null() {
+                        inst["iseed"] = json!(seed.wrapping_mul(1_000_003).wrapping_add(i as u64));
+                    }
+                    let lines = run_child(&inst);
+                    *results[i].lock().unwrap() = lines;
+                }
+            });
+        }
+    });
+    let mut out = BufWriter::new(fs::File::create(&args[1]).unwrap());
+    for r in results {
+        for l in r.into_inner().unwrap() {
             writeln!(out, "{}", l).unwrap();
         }
     }
     out.flush().unwrap();
+    0
+}
+
+/// Run one instance in a child process (`vh lr-child`, instance on stdin, NDJSON on stdout).
+/// Code under test that does not return cannot wedge or starve the harness: if the child stays
+/// silent for longer than the per-line deadline it is killed and a `hang` event is recorded.
+fn run_child(inst: &Value) -> Vec<String> {
+    use std::io::{BufRead, BufReader};
+    use std::process::{Command, Stdio};
+    let exe = std::env::current_exe().unwrap();
+    let mut child = Command::new(exe)
+        .arg("lr-child")
+        .stdin(Stdio::piped())
+        .stdout(Stdio::piped())
+        .stderr(Stdio::null())
+        .spawn()
+        .unwrap();
+    {
+        let mut stdin = child.stdin.take().unwrap();
+        let _ = stdin.write_all(inst.to_string().as_bytes());
+    }
+    let stdout = child.stdout.take().unwrap();
+    let (tx, rx) = std::sync::mpsc::channel::<String>();
+    let reader = std::thread::spawn(move || {
+        for line in BufReader::new(stdout).lines() {
+            match line {
+                Ok(l) => {
+                    if tx.send(l).is_err() {
+                        break;
+                    }
+                }
+                Err(_) => break,
+            }
+        }
+    });
+    let budget_ms = inst["budget_ms"].as_u64().unwrap_or(4000);
+    let deadline = Duration::from_millis(5 * budget_ms + 1500);
+    let mut lines = Vec::new();
+    loop {
+        match rx.recv_timeout(deadline) {
+            Ok(l) => lines.push(l),
+            Err(std::sync::mpsc::RecvTimeoutError::Timeout) => {
+                let _ = child.kill();
+                lines.push(json!({"ev": "hang", "after_lines": lines.len()}).to_string());
+                break;
+            }
+            Err(std::sync::mpsc::RecvTimeoutError::Disconnected) => break,
+        }
+    }
+    let _ = child.wait();
+    let _ = reader.join();
+    if lines.is_empty() {
+        lines.push(json!({"ev": "reset", "id": inst["id"], "y": inst["y"], "kind": inst["kind"]}).to_string());
+        lines.push(json!({"ev": "crash"}).to_string());
+    }
+    lines
+}
+
+pub fn child_main() -> i32 {
+    let mut s = String::new();
+    std::io::Read::read_to_string(&mut std::io::stdin(), &mut s).unwrap();
+    let inst: Value = serde_json::from_str(&s).unwrap();
+    let width = inst["width"].as_u64().unwrap_or(32);
+    let iseed = inst["iseed"].as_u64().unwrap_or(0);
+    let stdout = std::io::stdout();
+    let mut emit = |l: String| {
+        let mut o = stdout.lock();
+        let _ = writeln!(o, "{}", l);
+        let _ = o.flush();
+    };
+    match width {
+        8 => instance::<u8>(&inst, iseed, &mut emit),
+        16 => instance::<u16>(&inst, iseed, &mut emit),
+        _ => instance::<u32>(&inst, iseed, &mut emit),
+    };
     0
 }
 
@@ -224,12 +315,7 @@ where
            "has_conflicts": st.conflicts().is_some()})
 }
 
-fn analyses_json<S: 'static + PrimInt + Unsigned + Send + Sync>(
-    grm: &YaccGrammar<S>,
-    costs: &[u8],
-    ytext: String,
-    kind: YaccKind,
-) -> Value
+fn analyses_json<S: 'static + PrimInt + Unsigned>(grm: &YaccGrammar<S>, costs: &[u8]) -> Value
 where
     usize: AsPrimitive<S>,
 {
@@ -266,12 +352,18 @@ where
                 .collect::<Vec<_>>()
         })
         .collect::<Vec<_>>();
-    // The cost queries can fail to return (a rule on a token-free cycle): run them on their own
-    // thread with a fresh grammar and report a hang as an observation.
+    json!({"ev": "analyses", "nullable": nullable, "first": first, "follow": follow, "path": path,
+           "costs": costs})
+}
+
+/// The cost queries can fail to return (a rule on a token-free cycle): they are emitted as a
+/// separate, last event of the analyses so that the parent can record a hang.
+fn costs_json<S: 'static + PrimInt + Unsigned>(grm: &YaccGrammar<S>, costs: &[u8]) -> Value
+where
+    usize: AsPrimitive<S>,
+{
     let costs_v = costs.to_vec();
-    let nr = usize::from(grm.rules_len());
-    let cost_obs = guarded(Duration::from_secs(3), move || {
-        let grm = YaccGrammar::<S>::new_with_storaget(kind, &ytext).unwrap();
+    let r = catch(|| {
         let sg = grm.sentence_generator(|t| costs_v[usize::from(t)]);
         let mut min = Vec::new();
         let mut max = Vec::new();
@@ -297,16 +389,12 @@ where
             v.sort();
             minsents.push(json!({"n": ms.len(), "sents": v}));
         }
-        json!({"status": "ok", "min": min, "max": max, "minsent": minsent, "minsents": minsents})
+        json!({"ev": "costs", "status": "ok", "costs": costs_v, "min": min, "max": max, "minsent": minsent, "minsents": minsents})
     });
-    let cost_obs = match cost_obs {
-        Outcome::Done(v) => v,
-        Outcome::Panic(m) => json!({"status": "panic", "msg": m}),
-        Outcome::Hang => json!({"status": "hang"}),
-    };
-    let _ = nr;
-    json!({"ev": "analyses", "nullable": nullable, "first": first, "follow": follow, "path": path,
-           "costs": costs, "cost": cost_obs})
+    match r {
+        Ok(v) => v,
+        Err(m) => json!({"ev": "costs", "status": "panic", "msg": m, "costs": costs}),
+    }
 }
 
 // ---------------------------------------------------------------------------------------------
@@ -548,6 +636,7 @@ where
 {
     json!(
         errs.iter()
+            .take(60)
             .map(|e| match e {
                 LexParseError::LexError(_) => json!({"kind": "lex"}),
                 LexParseError::ParseError(pe) => {
@@ -684,6 +773,11 @@ where
                         .collect::<Vec<_>>();
                     let mut ev = events.borrow_mut();
                     let id = ev.len();
+                    if id > 100_000 {
+                        // a reduce loop (a grammar in which a rule derives itself): stop before
+                        // memory runs out; reported like a parse that does not return
+                        panic!("HARNESS-LOOP");
+                    }
                     ev.push(json!({"p": usize::from(pidx), "r": usize::from(ridx),
                                    "span": [span.start(), span.end()], "args": a, "param": param}));
                     V::Node(id)
@@ -731,6 +825,9 @@ where
             .collect::<Vec<_>>();
         let mut ev = mevents.borrow_mut();
         let id = ev.len();
+        if id > 100_000 {
+            panic!("HARNESS-LOOP");
+        }
         ev.push(json!({"r": usize::from(ridx), "args": a}));
         MapNode::Nonterm(id)
     };
@@ -755,21 +852,33 @@ where
     cfgrammar::verif::set_recovery_budget_ms(None);
     json!({
         "recovery": recovery,
-        "act": {"result": act_result, "errors": act_errors, "events": act_events, "hook": hook},
-        "map": {"result": map_result, "errors": map_errors, "events": mevents.borrow().clone()},
+        "act": {"result": act_result, "errors": act_errors, "nerrors": errs.len(), "events": act_events, "hook": hook},
+        "map": {"result": map_result, "errors": map_errors, "nerrors": merrs.len(), "events": mevents.borrow().clone()},
         "pp": pps,
     })
+}
+
+struct Lines<'a>(&'a mut dyn FnMut(String));
+impl Lines<'_> {
+    fn push(&mut self, s: String) {
+        (self.0)(s)
+    }
+    fn extend(&mut self, v: Vec<String>) {
+        for s in v {
+            (self.0)(s)
+        }
+    }
 }
 
 fn instance<S: 'static + Debug + Hash + PrimInt + Unsigned + Send + Sync>(
     inst: &Value,
     seed: u64,
-) -> Vec<String>
-where
+    emit: &mut dyn FnMut(String),
+) where
     usize: AsPrimitive<S>,
     u32: AsPrimitive<S>,
 {
-    let mut lines = Vec::new();
+    let mut lines = Lines(emit);
     let id = inst["id"].as_str().unwrap_or("?").to_string();
     let ytext = inst["y"].as_str().unwrap().to_string();
     let kind = yacckind(inst["kind"].as_str().unwrap_or("original"));
@@ -791,11 +900,11 @@ where
                 json!({"ev": "grammar_err", "errors": es.iter().map(|e| format!("{}", e)).collect::<Vec<_>>()})
                     .to_string(),
             );
-            return lines;
+            return;
         }
         Err(m) => {
             lines.push(json!({"ev": "grammar_panic", "msg": m}).to_string());
-            return lines;
+            return;
         }
     };
     lines.push(grammar_json(&grm).to_string());
@@ -817,7 +926,7 @@ where
     };
 
     if want("analyses") {
-        lines.push(analyses_json(&grm, &costs, ytext.clone(), kind).to_string());
+        lines.push(analyses_json(&grm, &costs).to_string());
     }
 
     cfgrammar::verif::start();
@@ -834,11 +943,11 @@ where
                 json!({"ev": "table_err", "kind": format!("{:?}", e.kind), "pidx": usize::from(e.pidx)})
                     .to_string(),
             );
-            return lines;
+            return;
         }
         Err(m) => {
             lines.push(json!({"ev": "table_panic", "msg": m}).to_string());
-            return lines;
+            return;
         }
     };
     if want("pager") {
@@ -858,33 +967,15 @@ where
             _ => vec![false, true],
         };
         let budget_ms = inst["budget_ms"].as_u64().unwrap_or(4000);
-        let mut hung = 0;
         for toks in inputs {
-            if hung >= 2 {
-                break;
-            }
             let (lx, src) = layout(&toks, &mut rng);
             let mut obs = Vec::new();
             for rec in &recovery_modes {
                 let rec = *rec;
-                // Everything the parse needs is rebuilt inside the watchdog thread so that a
-                // non-returning parse cannot wedge the harness.
-                let ytext2 = ytext.clone();
-                let lx2 = lx.clone();
-                let src2 = src.clone();
-                let costs2 = costs.clone();
-                let r = guarded(Duration::from_millis(3 * budget_ms + 5000), move || {
-                    let grm = YaccGrammar::<S>::new_with_storaget(kind, &ytext2).unwrap();
-                    let (_, st) = from_yacc(&grm, Minimiser::Pager).unwrap();
-                    parse_obs(&grm, &st, &lx2, &src2, &costs2, rec, budget_ms)
-                });
+                let r = catch(|| parse_obs(&grm, &st, &lx, &src, &costs, rec, budget_ms));
                 obs.push(match r {
-                    Outcome::Done(v) => v,
-                    Outcome::Panic(m) => json!({"recovery": rec, "panic": m}),
-                    Outcome::Hang => {
-                        hung += 1;
-                        json!({"recovery": rec, "hang": true})
-                    }
+                    Ok(v) => v,
+                    Err(m) => json!({"recovery": rec, "panic": m}),
                 });
             }
             lines.push(
@@ -894,6 +985,9 @@ where
             );
         }
     }
+    if want("analyses") {
+        // last: may not return
+        lines.push(costs_json(&grm, &costs).to_string());
+    }
     let _ = StIdx(0u32);
-    lines
 }
